@@ -40,35 +40,35 @@ namespace {
         c.close(mv(i, j), A(i, j), 0, "C02.tensor.matrix_view", "matrix_view(i,j)");
       }
     // products  T_ij = A_ik B_kj
-    cmpT(c, TT(a * b), A * B, 64 * u * nA * nB + tiny, "C02.tensor.product", "a*b");
-    cmpT(c, TT(s * a), Sm * A, 64 * u * nS * nA + tiny, "C02.tensor.product_sa", "s*a");
-    cmpT(c, TT(a * s), A * Sm, 64 * u * nS * nA + tiny, "C02.tensor.product_as", "a*s");
-    cmpT(c, TT(s * s2), Sm * S2, 64 * u * nS * nS2 + tiny, "C02.tensor.product_ss", "s1*s2");
-    cmpT(c, TT(a * b * s), A * B * Sm, 128 * u * nA * nB * nS + tiny, "C02.tensor.product3",
+    cmpT(c, TT(a * b), A * B, 256 * u * nA * nB + tiny, "C02.tensor.product", "a*b");
+    cmpT(c, TT(s * a), Sm * A, 256 * u * nS * nA + tiny, "C02.tensor.product_sa", "s*a");
+    cmpT(c, TT(a * s), A * Sm, 256 * u * nS * nA + tiny, "C02.tensor.product_as", "a*s");
+    cmpT(c, TT(s * s2), Sm * S2, 256 * u * nS * nS2 + tiny, "C02.tensor.product_ss", "s1*s2");
+    cmpT(c, TT(a * b * s), A * B * Sm, 512 * u * nA * nB * nS + tiny, "C02.tensor.product3",
          "a*b*s");
     // transpose
     cmpT(c, TT(transpose(a)), ref::transpose(A), 0, "C02.tensor.transpose", "transpose(a)");
-    cmpT(c, TT(transpose(a) * b), ref::transpose(A) * B, 64 * u * nA * nB + tiny,
+    cmpT(c, TT(transpose(a) * b), ref::transpose(A) * B, 256 * u * nA * nB + tiny,
          "C02.tensor.transpose", "transpose(a)*b");
     // scalar functions
-    c.close(trace(a), ref::trace(A), 16 * u * nA + tiny, "C02.tensor.trace", "trace");
-    c.close(det(a), ref::det(A), 64 * u * nA * nA * nA + tiny, "C02.tensor.det", "det");
-    c.close(a | b, ref::ddot(A, B), 64 * u * nA * nB + tiny, "C02.tensor.contraction", "a|b");
+    c.close(trace(a), ref::trace(A), 256 * u * nA + tiny, "C02.tensor.trace", "trace");
+    c.close(det(a), ref::det(A), 256 * u * nA * nA * nA + tiny, "C02.tensor.det", "det");
+    c.close(a | b, ref::ddot(A, B), 256 * u * nA * nB + tiny, "C02.tensor.contraction", "a|b");
     // syme / unsyme
-    cmpS(c, S(syme(a)), ref::sym(A), 16 * u * nA + tiny, "C02.tensor.syme", "syme(a)");
-    cmpT(c, TT(unsyme(s)), Sm, 8 * u * nS + tiny, "C02.tensor.unsyme", "unsyme(s)");
-    cmpS(c, S(syme(unsyme(s))), Sm, 16 * u * nS + tiny, "C02.tensor.syme_unsyme",
+    cmpS(c, S(syme(a)), ref::sym(A), 256 * u * nA + tiny, "C02.tensor.syme", "syme(a)");
+    cmpT(c, TT(unsyme(s)), Sm, 128 * u * nS + tiny, "C02.tensor.unsyme", "unsyme(s)");
+    cmpS(c, S(syme(unsyme(s))), Sm, 256 * u * nS + tiny, "C02.tensor.syme_unsyme",
          "syme(unsyme(s))");
     // linear combinations (expression templates), mixed with symmetric tensors
-    cmpT(c, TT(a + b), A + B, 8 * u * (nA + nB) + tiny, "C02.tensor.lincomb", "a+b");
-    cmpT(c, TT(2 * a - b), R(2) * A - B, 8 * u * (2 * nA + nB) + tiny, "C02.tensor.lincomb",
+    cmpT(c, TT(a + b), A + B, 128 * u * (nA + nB) + tiny, "C02.tensor.lincomb", "a+b");
+    cmpT(c, TT(2 * a - b), R(2) * A - B, 128 * u * (2 * nA + nB) + tiny, "C02.tensor.lincomb",
          "2a-b");
     cmpT(c, TT(-a), R(-1) * A, 0, "C02.tensor.lincomb", "-a");
-    cmpT(c, TT(a + s), A + Sm, 8 * u * (nA + nS) + tiny, "C02.tensor.lincomb_sym", "a+s");
-    cmpT(c, TT(s - a), Sm - A, 8 * u * (nA + nS) + tiny, "C02.tensor.lincomb_sym", "s-a");
+    cmpT(c, TT(a + s), A + Sm, 128 * u * (nA + nS) + tiny, "C02.tensor.lincomb_sym", "a+s");
+    cmpT(c, TT(s - a), Sm - A, 128 * u * (nA + nS) + tiny, "C02.tensor.lincomb_sym", "s-a");
     // identity
     cmpT(c, TT(TT::Id()), M3::Id(), 0, "C02.tensor.Id", "Id");
-    cmpT(c, TT(TT::Id() * a), A, 8 * u * nA + tiny, "C02.tensor.Id", "Id*a");
+    cmpT(c, TT(TT::Id() * a), A, 128 * u * nA + tiny, "C02.tensor.Id", "Id*a");
     // Fortran (column major) 3x3 matrix
     T f[9];
     for (int i = 0; i < 3; ++i)
@@ -104,14 +104,14 @@ namespace {
     const R u = U<T>();
     const R nA = ref::norm(A), nI = ref::norm(IA);
     // cofactor formula: error of the adjugate ~ u |A|^2, of det ~ u |A|^3
-    const R tol = 64 * u * (nA * nA / std::fabs(dA)) * (1 + nA * nI);
+    const R tol = 256 * u * (nA * nA / std::fabs(dA)) * (1 + nA * nI);
     const TT ia = invert(a);
     cmpT(c, ia, IA, tol, "C02.tensor.invert", "invert");
     const M3 P = A * gen::tensorToM3(ia) - M3::Id();
     c.check(ref::norm(P) <= tol * nA, "C02.tensor.invert",
             "||A inv(A) - I|| = " + std::to_string(static_cast<double>(ref::norm(P))));
     c.err("C02.tensor.invert.residual", static_cast<double>(ref::norm(P) / (tol * nA)));
-    c.close(det(a), dA, 64 * u * nA * nA * nA, "C02.tensor.det", "det (graded singular values)");
+    c.close(det(a), dA, 256 * u * nA * nA * nA, "C02.tensor.det", "det (graded singular values)");
   }
 
   template <unsigned short N, typename T>
@@ -124,7 +124,7 @@ namespace {
     const M3 Rm = gen::rotationMatrixToM3(r);
     c.nontrivial(nonsym(A, N) && gen::misalignment(Rm) > 1e-3);
     const R u = U<T>(), tiny = tinyOf<T>();
-    const R tol = 128 * u * ref::norm(A) + tiny;
+    const R tol = 512 * u * ref::norm(A) + tiny;
     // same convention as for symmetric tensors (C01): change_basis(t,r) = r^T t r
     const M3 E = ref::transpose(Rm) * A * Rm;
     cmpT(c, TT(change_basis(a, r)), E, tol, "C02.tensor.change_basis", "change_basis");
@@ -159,14 +159,14 @@ namespace {
     const R nF = ref::norm(Fm), nS = ref::norm(Sm);
     const M3 Ft = ref::transpose(Fm);
     // Cauchy-Green tensors (docs/web/tensors.md)
-    cmpS(c, S(computeRightCauchyGreenTensor(F)), Ft * Fm, 64 * u * nF * nF + tiny,
+    cmpS(c, S(computeRightCauchyGreenTensor(F)), Ft * Fm, 256 * u * nF * nF + tiny,
          "C02.tensor.rightCauchyGreen", "C = F^T F");
-    cmpS(c, S(computeLeftCauchyGreenTensor(F)), Fm * Ft, 64 * u * nF * nF + tiny,
+    cmpS(c, S(computeLeftCauchyGreenTensor(F)), Fm * Ft, 256 * u * nF * nF + tiny,
          "C02.tensor.leftCauchyGreen", "B = F F^T");
     cmpS(c, S(computeGreenLagrangeTensor(F)), R(0.5) * (Ft * Fm - M3::Id()),
-         64 * u * (nF * nF + 1) + tiny, "C02.tensor.greenLagrange", "E = (F^T F - I)/2");
+         256 * u * (nF * nF + 1) + tiny, "C02.tensor.greenLagrange", "E = (F^T F - I)/2");
     // push forward of a symmetric tensor: F s F^T
-    const R tpf = 128 * u * nF * nF * nS + tiny;
+    const R tpf = 512 * u * nF * nF * nS + tiny;
     cmpS(c, S(push_forward(s, F)), Fm * Sm * Ft, tpf, "C02.tensor.push_forward",
          "push_forward(s,F)");
     cmpS(c, S(pushForward(s, F)), Fm * Sm * Ft, tpf, "C02.tensor.push_forward",
